@@ -9,6 +9,7 @@ import (
 	"net/url"
 	"os"
 	"path/filepath"
+	"strconv"
 	"strings"
 	"sync"
 	"testing"
@@ -107,6 +108,15 @@ func init() {
 				if l.Feeder == omniwitness.Rekor && u.Query().Get("treeID") == "" {
 					add("startup_failed", "rekor_treeid", fmt.Sprintf("%s: entry %q: rekor URL %q lacks the treeID parameter", file, l.Origin, l.URL))
 				}
+				// ... and the URL as the feeder is handed it (after the loader) still is one it can start from
+				fu, ferr := url.Parse(lc.URL)
+				if ferr != nil || fu.Host != u.Host || fu.Scheme != u.Scheme || strings.Contains(fu.Path, "//") {
+					add("startup_failed", "url_as_loaded", fmt.Sprintf("%s: entry %q: the loader turned URL %q into %q", file, l.Origin, l.URL, lc.URL))
+				} else if l.Feeder == omniwitness.Rekor {
+					if _, err := strconv.ParseUint(fu.Query().Get("treeID"), 10, 64); err != nil || fu.Query().Get("treeID") != u.Query().Get("treeID") {
+						add("startup_failed", "rekor_treeid_as_loaded", fmt.Sprintf("%s: entry %q: the feeder is handed URL %q whose treeID %q is not the configured tree number %q", file, l.Origin, lc.URL, fu.Query().Get("treeID"), u.Query().Get("treeID")))
+					}
+				}
 				out.Distinct = append(out.Distinct, file+"/"+l.Origin)
 			}
 			m, err := cfg.AsLogMap()
@@ -185,7 +195,7 @@ func init() {
 						base := strings.TrimSuffix(u.Path, "/")
 						found := false
 						for _, q := range reqs {
-							if q.Host == u.Host && q.Method == "GET" && strings.HasPrefix(q.Path, base) && strings.HasSuffix(q.Path, wantSuffix) {
+							if q.Host == u.Host && q.Method == "GET" && strings.HasPrefix(q.Path, base) && strings.HasSuffix(q.Path, wantSuffix) && !strings.Contains(q.Path, "//") {
 								found = true
 							}
 						}
